@@ -257,7 +257,7 @@ static std::vector<Spec> build() {
   // ================================================================ C05 Spalart-Allmaras
   {
     Spec s; s.name = "rans_sa"; s.props = {"C05", "C09"}; s.nargs = 1;
-    s.gen = [](Draw &d, PV &p, bool sweep) { for (auto &kv : p) { long double f = d.U(0.8L, 1.2L); long double g = sweepf(d, sweep, 0.15); if (kv.first == "re_tau") f *= powl(g, 1.0L / 3) * d.logU(0.1L, 10.0L); kv.second *= f; } };
+    s.gen = [](Draw &d, PV &p, bool sweep) { for (auto &kv : p) { long double f = d.U(0.6L, 1.4L); long double g = sweepf(d, sweep, 0.15); if (kv.first == "re_tau") f *= powl(g, 1.0L / 3) * d.logU(0.1L, 10.0L); kv.second *= f; } };
     s.genpt = [](Draw &d, long double *pt, const PV &) { pt[0] = d.U(0.01L, 0.99L); };
     auto skip = [](const PM &p, const Q *x) { Channel::Aux a; Channel::ref(p, x, 1, &a); __float128 sw = a.Sbar.v + a.cv2.v * a.Om.v; return fabsq(sw) < 1e-6Q * (fabsq(a.Sbar.v) + fabsq(a.cv2.v * a.Om.v)) || fabsq(a.r.v - 10) < 1e-6Q; };
     s.evals.push_back(EV("source_u", 0, masa_eval_source_u, A1, return Channel::ref(p, x, 0);));
@@ -314,13 +314,17 @@ static std::vector<Spec> build() {
   }
   {
     Spec s; s.name = "fans_sa_steady_wall_bounded"; s.props = {"C05", "C09"}; s.nargs = 2;
-    s.gen = [](Draw &d, PV &p, bool sweep) { for (auto &kv : p) { long double f = d.U(0.8L, 1.2L); long double g = sweepf(d, sweep, 0.3);
-        const std::string &n = kv.first; if (n == "mu" || n == "p_0" || n == "T_inf" || n == "R") f *= powl(g, 1.0L / 3);   // scale-type parameters: up to 10^+-1
+    s.gen = [](Draw &d, PV &p, bool sweep) { for (auto &kv : p) { long double f = d.U(0.6L, 1.4L); long double g = sweepf(d, sweep, 0.3);
+        const std::string &n = kv.first; if (n == "mu" || n == "p_0" || n == "T_inf" || n == "R") f *= powl(g, 2.0L / 3);   // scale-type parameters: up to 10^+-2
         kv.second *= f; }
-      if (p.count("Gamma")) p["Gamma"] = d.U(1.2L, 1.7L); if (p.count("M_inf")) p["M_inf"] = d.U(0.3L, 1.5L);
+      if (p.count("Gamma")) p["Gamma"] = d.U(1.2L, 1.7L); if (p.count("M_inf")) p["M_inf"] = d.U(0.2L, 2.5L);
       // the wall-normal velocity may point either way (eta_v of either sign), and the nu_sa profile may bend either way as long as nu_sa > 0 in the sampled layer
       if (p.count("eta_v") && d.coin(0.4)) p["eta_v"] = -p["eta_v"]; if (p.count("alpha") && d.coin(0.3)) p["alpha"] = -p["alpha"] * d.U(0.1L, 1.0L); };
-    s.genpt = [](Draw &d, long double *pt, const PV &) { pt[0] = d.U(0.3L, 3.0L); pt[1] = d.logU(1e-3L, 0.2L); };
+    // nu_sa = kappa u_tau y - alpha y^2 must stay positive (admissible state): y is drawn below the zero of the profile by construction
+    s.genpt = [](Draw &d, long double *pt, const PV &pv) { pt[0] = d.U(0.3L, 3.0L); pt[1] = d.logU(1e-3L, 0.2L); long double frac = d.U(0.05L, 0.8L);
+      PM p; for (auto &kv : pv) p[kv.first] = Q(kv.second); Q x[2] = {Q(pt[0]), Q(pt[1])}; long double nu = (long double)WallBounded::field(p, x, 4).v, al = (long double)par(p, "alpha").v;
+      long double ku = (nu + al * pt[1] * pt[1]) / pt[1];   // kappa * u_tau at this x
+      if (al > 0 && ku > 0 && pt[1] > 0.8L * ku / al) pt[1] = frac * ku / al; };
     auto skip = [](const PM &p, const Q *x) { WallBounded::Aux a; WallBounded::ref(p, x, 4, 0, &a); __float128 sw = a.Sbar.v + a.cv2.v * a.Om.v; return fabsq(sw) < 1e-6Q * (fabsq(a.Sbar.v) + fabsq(a.cv2.v * a.Om.v)); };
     s.evals.push_back(EV("exact_rho", 1, masa_eval_exact_rho, A2, return WallBounded::field(p, x, 0);));
     s.evals.push_back(EV("exact_u", 1, masa_eval_exact_u, A2, return WallBounded::field(p, x, 1);));
